@@ -4,7 +4,7 @@ Traversal model: C01's transcription of read-fonts closure.rs (`HandColr.v1Closu
 `Colrv1ClosureContext::dispatch` — visited set on paint positions, nesting limit 64 — over the byte-level paint graph
 `graphOf`), tied to the real API by C01's `hc.clos` group and by C17's own `colr-v1pal` group (harness/src/bin/c17/palx.rs).
 -/
-import FontVerif.Lemmas.SubsetColrPalV1
+import FontVerif.Lemmas.SubsetColrPalV1b
 import FontVerif.Props.C17ColrPal
 set_option linter.unusedVariables false
 namespace FontVerif.C17ColrPalV1
@@ -36,7 +36,7 @@ theorem cpal_entries_kept_are_closure_full (t : Colr) (records : List (Nat × Na
 
 /-- **cpal_entries_kept_are_referenced.**  Nothing unreferenced is kept: every retained CPAL entry is the palette index of
 a COLRv0 layer of a retained colour glyph or of a paint reachable from a retained colour glyph's COLRv1 root paint.
-(`cpal_entries_kept_complete_partial`, not proved: the converse "every reachable paint's index is kept" holds only while the
+(The converse "every reachable paint's index is kept" is `cpal_entries_kept_iff_referenced_below_limit`; it holds only while the
 nesting limit 64 does not fire — a paint first met at depth 64 is marked visited with its children unexplored and is not
 re-explored when met again at a smaller depth; known finding C17-colr-nesting-limit; the `colr-v1pal` correspondence and the
 paint-event oracle cover it on the corpus.) -/
@@ -67,23 +67,39 @@ example : Reach exG 10 40 := by
   have h1 : Reach exG 10 30 := Reach.tail (b := 10) (c := 30) (n := .layers 3 0) (Reach.refl 10) (by decide) (by decide)
   exact Reach.tail (b := 30) (c := 40) (n := .glyph 9 (some 40)) h1 (by decide) (by decide)
 
-/-! ## the hypothesis under which completeness holds (completeness itself: NOT proved, see reports/C17.md)
+/-- **v1_palette_indices_complete_below_limit.**  COMPLETENESS under the decidable hypothesis `BelowLimit` (every path of
+the paint graph from a retained colour glyph's root paint has fewer than 64 edges: a DAG of height < 64 below the roots,
+sharing allowed), for a version ≥ 1 table whose paints lie below 2^32: the palette index of EVERY solid / colour stop
+reachable from a retained colour glyph's root paint IS collected by `v1_closure`.  (DFS invariant `dispatch_complete`, by
+induction on the height bound.)  With `v1_palette_indices_sound`: collected = referenced. -/
+theorem v1_palette_indices_complete_below_limit (t : Colr) (hv : ¬ t.version < 1)
+    (hsmall : ∀ x m, (graphOf t).node x = some m → x < 4294967296) (gs : List Nat)
+    (hbl : BelowLimit (graphOf t) gs = true) (r : Nat) (hr : r ∈ rootsOf (graphOf t) gs) (y : Nat) (m : PNode)
+    (hreach : Reach (graphOf t) r y) (hm : (graphOf t).node y = some m) (p : Nat) (hp : p ∈ palOf m) :
+    p ∈ v1Palettes t gs :=
+  v1Palettes_complete t hv hsmall gs hbl r hr y m hreach hm p hp
 
-`BelowLimit G gs`: every path of the paint graph from a retained colour glyph's root paint ends after fewer than 64 edges
-(a DAG of height < 64 below the roots; sharing allowed, cycles excluded).  Decidable.  Under it `dispatch` never meets
-`nesting_level_left == 0`, and the DFS with its visited set then visits every reachable paint; the proof of
-`v1_palette_indices_complete_below_limit` (visited set closed under `children` outside the current stack) did not fit the
-time slot and is left as the model-independent oracle `v1-closure-complete-below-nesting-limit` + the `colr-v1pal`
-correspondence on both sides of the limit (harness/src/bin/c17/palx.rs). -/
+/-- **cpal_entries_kept_iff_referenced_below_limit.**  Under `BelowLimit`: the CPAL entries `Cpal::subset` keeps are EXACTLY
+the palette indices (≠ 0xFFFF) of the COLRv0 layers of the retained colour glyphs and of the solids / colour stops
+reachable from their COLRv1 root paints — kept = referenced. -/
+theorem cpal_entries_kept_iff_referenced_below_limit (t : Colr) (hv : ¬ t.version < 1)
+    (hsmall : ∀ x m, (graphOf t).node x = some m → x < 4294967296)
+    (records : List (Nat × Nat × Nat)) (layers : List (Nat × Nat)) (colred : List Nat)
+    (hbl : BelowLimit (graphOf t) colred = true) (e : Nat) :
+    e ∈ retainedOf (colrPalettesFull t records layers colred) ↔
+      e ≠ 0xFFFF ∧
+      ((∃ r ∈ rootsOf (graphOf t) colred, ∃ pos n, Reach (graphOf t) r pos ∧ (graphOf t).node pos = some n ∧ e ∈ palOf n) ∨
+       ∃ g ∈ colred, e ∈ v0PalOfGlyph records layers g) := by
+  constructor
+  · exact cpal_entries_kept_are_referenced t records layers colred e
+  · rintro ⟨h1, h2⟩
+    apply (cpal_entries_kept_are_closure_full t records layers colred e).2
+    refine ⟨h1, ?_⟩
+    rcases h2 with ⟨r, hr, pos, n, hreach, hn, hp⟩ | h
+    · exact Or.inl (v1_palette_indices_complete_below_limit t hv hsmall colred hbl r hr pos n hreach hn e hp)
+    · exact Or.inr h
 
-def heightLe (G : Graph) : Nat → Nat → Bool
-  | 0, _ => false
-  | k + 1, pos =>
-    match G.node pos with
-    | none => true
-    | some n => (children G n).all (heightLe G k)
-
-def BelowLimit (G : Graph) (gs : List Nat) : Bool := (rootsOf G gs).all (heightLe G 64)
+/-! ## the hypothesis on both sides (`BelowLimit`, `heightLe`: Lemmas/SubsetColrPalV1b.lean) -/
 
 /-- base glyph 1 → a chain of `n` PaintTranslate → PaintSolid(palette 7)  (the synthetic family `syn:colr-nest-n`) -/
 def chainG (n : Nat) : Graph :=
